@@ -20,6 +20,8 @@ pub enum Term {
     End,
     Err(i16),
     Runaway,
+    /// the iterator yielded an Ok item that is not a decimal value / range of decimal values
+    BadItem,
 }
 
 fn rng(base: &[u8], x: &[u8]) -> R {
@@ -42,7 +44,7 @@ pub fn observe_numeric(nl: NumericList, body: &[u8]) -> (Vec<NEntry>, Term) {
         match item {
             Ok(numeric_list::Token::Numeric(Token::DecimalNumericProgramData(a))) => out.push(NEntry::Value(rng(body, a))),
             Ok(numeric_list::Token::NumericRange(Token::DecimalNumericProgramData(a), Token::DecimalNumericProgramData(b))) => out.push(NEntry::Range(rng(body, a), rng(body, b))),
-            Ok(_) => return (out, Term::Err(0)),
+            Ok(_) => return (out, Term::BadItem),
             Err(e) => return (out, Term::Err(e.get_code())),
         }
     }
@@ -138,7 +140,7 @@ fn compare<E: PartialEq + std::fmt::Debug>(kind: &str, body: &[u8], exp: &[E], t
         }
         Tail::Fault(why) => {
             if got != exp || !matches!(term, Term::Err(_)) {
-                let key = if matches!(term, Term::End) || got.len() > exp.len() { "fault-not-reported" } else { "wrong-entries-before-fault" };
+                let key = if matches!(term, Term::End | Term::BadItem) || got.len() > exp.len() { "fault-not-reported" } else { "wrong-entries-before-fault" };
                 return Some((format!("{kind}-{key}"), format!("{kind} list `{b}` ({why}) yields {:?} then {:?}; expected {:?} then an error", got, term, exp)));
             }
         }
@@ -147,7 +149,7 @@ fn compare<E: PartialEq + std::fmt::Debug>(kind: &str, body: &[u8], exp: &[E], t
             let n = exp.len();
             let ok = matches!(term, Term::Err(_)) && (got == exp || (n > 0 && got == &exp[..n - 1]));
             if !ok {
-                let key = if matches!(term, Term::End) || got.len() > n { "fault-not-reported" } else { "wrong-entries-before-fault" };
+                let key = if matches!(term, Term::End | Term::BadItem) || got.len() > n { "fault-not-reported" } else { "wrong-entries-before-fault" };
                 return Some((format!("{kind}-{key}"), format!("{kind} list `{b}` ({why}) yields {:?} then {:?}; expected {:?} (the last one optional) then an error", got, term, exp)));
             }
         }
